@@ -123,11 +123,10 @@ class Walker:
             return self.den(t['body'], env2)
         if k == 'multi':
             ds = [self.den(c, env) for c in t['subs']]
-            if any(d != ds[0] for d in ds):
-                raise Undefined('multi_unequal')
             if t.get('declared') is not None:
-                if self.q(t['declared'], env) != ds[0]:
-                    raise Undefined('multi_unequal')
+                ds = ds + [self.q(t['declared'], env)]
+            if any(d != ds[0] for d in ds):
+                raise Undefined(unequal_class(ds))
             return ds[0]
         if k == 'arith':
             dl, dr = self.den(t['lhs'], env), self.den(t['rhs'], env)
@@ -135,10 +134,19 @@ class Walker:
                 return dl
             if dl == 0:
                 return dr
-            raise Undefined('multi_unequal')
+            raise Undefined(unequal_class([dl, dr]))
         if k in ('wrap', 'rev'):
             return self.den(t['body'], env)
         raise ValueError(k)
+
+
+def unequal_class(ds):
+    """parallel parts of different duration: 'multi_unequal' when the implementation is known to let them through (a
+    part of duration 0 yields no waveform; isclose() passes differences below 1e-9 relative), else 'multi_unequal_far'"""
+    nz = [d for d in ds if d != 0]
+    if len(nz) < len(ds) or all(abs(a - nz[0]) <= F(1, 10 ** 9) * max(abs(a), abs(nz[0])) for a in nz):
+        return 'multi_unequal'
+    return 'multi_unequal_far'
 
 
 def spec(case):
